@@ -467,23 +467,21 @@ def main(ctx):
             "pickle(G)"]
     two = [([a, b], [c, d]) for a in mut2 for b in mut2 for c in mut2
            for d in mut2 if (a, b) <= (c, d)]
-    if ctx.quick:
-        two = ctx.rotate(two, 24)
+    two = ctx.rotate(two, ctx.pick(24, 160))
     for (x, y) in two:
         jobs.append((run_combo, "modeA-2x2",
                      (trec, [list(x), list(y)], fields, False,
-                      ctx.pick(2, None), ctx.pick(3000, 100000))))
+                      ctx.pick(2, None), ctx.pick(3000, 6000))))
     # 3 threads x 1 op
     m3 = ["G*5", "P.scale", "P.to_affine", "G.mul_add", "vk.precompute",
           "pickle(G)"]
     obs = ["11*G", "P*3", "P.x", "P==G", "vk.verify", "pickle(P)"]
     three = [(a, b, c) for a in m3 for b in m3 for c in obs if a <= b]
-    if ctx.quick:
-        three = ctx.rotate(three, 16)
+    three = ctx.rotate(three, ctx.pick(16, 126))
     for tr in three:
         jobs.append((run_combo, "modeA-3threads",
                      (trec, [[x] for x in tr], fields, False,
-                      ctx.pick(2, None), ctx.pick(3000, 100000))))
+                      ctx.pick(2, None), ctx.pick(3000, 8000))))
     # mode B: every line, preemption bound 1 (thorough: 2 on the mutators)
     mb = MUTATORS if not ctx.quick else [
         m for m in MUTATORS if m not in ("11*G", "P.mul_add",
@@ -502,7 +500,7 @@ def main(ctx):
                 "pickle(G)"]
         for (a, b) in [(a, b) for a in core for b in core if a <= b]:
             jobs.append((run_combo, "modeB-lines-bound2",
-                         (trec, [[a], [b]], fields, True, 2, 12000)))
+                         (trec, [[a], [b]], fields, True, 2, 6000)))
     rep = common.run_shards(ctx, jobs)
     caps = rep.extra.get("caps_hit", [])
     rep.exhaustive = not caps
